@@ -275,6 +275,7 @@ fn strategy() -> BoxedStrategy<AttrCase> {
             ("extras = Vec<u32>", false, false),
             ("error = Result<u8, Box<MyError>>", false, false),
             ("crate = my::logos", false, false),
+            ("crate = other::logos", false, false),
             ("subpattern ws = \"[ \\n]\"", false, true),
             ("subpattern ws2 = \"(?&ws)(?&ws)\"", false, true),
             ("export_dir = \"/nonexistent/x\"", false, false),
@@ -326,7 +327,9 @@ fn strategy() -> BoxedStrategy<AttrCase> {
                 } else {
                     kind
                 };
-                if seen.insert(key) {
+                // one case in four keeps items of a kind given twice (`crate = a, crate = b`, `extras = A, extras = B`):
+                // whatever the derive makes of them, it has to make the same of every order
+                if seen.insert(key) || ((perm_seed >> 11) % 4 == 0 && !li.iter().any(|i: &(String, bool, bool)| i.0 == t)) {
                     li.push((t.to_string(), s, sp));
                 }
             }
